@@ -249,7 +249,10 @@ static jv *obs_key(const char *key, jv *call, long r, jv *extra)
         j_push(t, j_mkint(e->r == 0 ? handle_of_pid(e->a) : -1)); j_push(t, j_mkint(e->b)); j_push(t, j_mkint(e->t));
         j_push(a, t);
       } else if (e->kind == LK_WAITPID && key[0] == 'r' && e->r > 0) {
-        j_push(a, j_mkint(handle_of_pid(e->a)));
+        /* a child forked and reaped inside the same call (a failed start) is accounted for by "left" */
+        int same_call = 0;
+        for (int q = log_mark; q < i; q++) if (K->log[q].kind == LK_FORK && K->log[q].a == e->a) same_call = 1;
+        if (!same_call) j_push(a, j_mkint(handle_of_pid(e->a)));
       } else if (e->kind == LK_MON && key[0] == 'm') {
         jv *t = j_mkarr(); j_push(t, j_mkint(e->a)); j_push(t, j_mkint(e->b)); j_push(a, t);
       } else if (e->kind == LK_PIPE || e->kind == LK_OPEN || e->kind == LK_FORK || e->kind == LK_DUP) created++;
@@ -651,6 +654,7 @@ static void fork_child_epilogue(int h, long r)
 static void setup(jv *cfg)
 {
   size_t cap = (size_t) j_int(cfg, "cap", 4);
+  if (cap < 4) { fprintf(stderr, "driver: pipe capacity below sizeof(int) breaks the library's internal error pipe\n"); __real__exit(2); }
   static size_t arena_sz;
   size_t need = cap * 40 + 4096;
   if (!K || need > arena_sz) { arena_sz = need < (1u << 20) ? (1u << 20) : need; K = NULL; sk_init(arena_sz); }
